@@ -24,6 +24,8 @@ type NetWorld struct {
 	Order    []string
 	poisonN  int
 	BadProbe int
+	// Problems: probes that do not belong to the connection they were sent on
+	Problems []string
 }
 
 type flowSt struct {
@@ -38,6 +40,8 @@ type flowSt struct {
 	hasTS   bool
 	tsVal   uint32
 	haveTCP bool
+	// handshaken: the connection's sequence numbers come from a handshake the world produced itself
+	handshaken bool
 }
 
 func NewNetWorld(scripts ...FlowScript) *NetWorld {
@@ -308,8 +312,24 @@ func (n *NetWorld) destReply(fs *flowSt, p *Probe, h HopSpec) ([]byte, Tag) {
 			// a time-exceeded sent by the target itself proves arrival for SACK
 			tag.IsDestForm = tag.FromTarget
 			return icmpError(from, local, h.Form, quoteOf(p.Raw, h.Form)), tag
-		case "plain-ack":
-			tag.Class, tag.Field = "sack-unsupported", "plain-ack"
+		case "plain-ack", "plain-ack-empty", "plain-ack-ts":
+			// an acknowledgement without SACK blocks, in the encodings a receiver may use: no option at all,
+			// a SACK option holding zero blocks (kind 5, length 2), only the timestamp option
+			tag.Class, tag.Field = "sack-unsupported", kind
+			var opts []byte
+			switch kind {
+			case "plain-ack-empty":
+				opts = []byte{1, 1, 5, 2}
+			case "plain-ack-ts":
+				opts = []byte{1, 1, 8, 10, 0x01, 0x02, 0x03, 0x05, 0x0a, 0x0b, 0x0c, 0x0d}
+			}
+			return tcpReply(from, p.DPort, local, p.SPort, fs.srvSeq+1, fs.rcvNxt, TCPAck, opts), tag
+		}
+		if why := fs.outOfWindow(p); why != "" {
+			// what a real receiver does with a segment that does not belong to the connection's window: a bare
+			// acknowledgement, no SACK block. The probe is the problem, not the reply.
+			n.Problems = append(n.Problems, fmt.Sprintf("flow %s: SACK probe TTL %d %s", fs.key, p.TTL, why))
+			tag.Class, tag.Field = "out-of-window", why
 			return tcpReply(from, p.DPort, local, p.SPort, fs.srvSeq+1, fs.rcvNxt, TCPAck, nil), tag
 		}
 		tag.IsDestForm = true
@@ -321,6 +341,24 @@ func (n *NetWorld) destReply(fs *flowSt, p *Probe, h HopSpec) ([]byte, Tag) {
 		return tcpReply(from, p.DPort, local, p.SPort, fs.srvSeq+1, fs.rcvNxt, TCPAck, opts), tag
 	}
 	return nil, tag
+}
+
+// outOfWindow says why a real TCP receiver would not queue the probe's byte (RFC 793/5961 acceptability as
+// Linux applies it): sequence number outside the receive window, or an acknowledgement of data never sent.
+func (fs *flowSt) outOfWindow(p *Probe) string {
+	if !fs.handshaken {
+		return ""
+	}
+	const window = 65535 << 7 // the SYN-ACK advertises 65535 with a shift of 7
+	if rel := p.TCP.Seq - fs.rcvNxt; rel > window {
+		return fmt.Sprintf("has sequence number %d, the connection's receive window starts at %d (handshake of this connection)", p.TCP.Seq, fs.rcvNxt)
+	}
+	if p.TCP.Flags&TCPAck != 0 {
+		if d := int32(p.TCP.Ack - (fs.srvSeq + 1)); d > 0 || d < -window {
+			return fmt.Sprintf("acknowledges %d, the target has sent nothing beyond %d on this connection", p.TCP.Ack, fs.srvSeq+1)
+		}
+	}
+	return ""
 }
 
 // sackReceive models a SACK-capable TCP receiver getting an out-of-order segment; it returns the
@@ -520,7 +558,11 @@ func (s *SackServer) synAcks(n *NetWorld, remote netip.AddrPort) []Sched {
 		n.flows[key] = fs
 		n.Order = append(n.Order, key)
 	}
-	fs.haveTCP, fs.rcvNxt, fs.srvSeq, fs.hasTS, fs.tsVal = true, c.ClientNxt, c.ServerISN, c.TS, 0x01020304
+	// every connection has its own initial sequence numbers (the first one exactly the configured values):
+	// a run that takes another connection's SYN-ACK for its own then probes outside its window
+	conn := uint32(len(s.Remotes) - 1)
+	clientNxt, serverISN := c.ClientNxt+conn*0x10000019, c.ServerISN+conn*0x02000033
+	fs.haveTCP, fs.handshaken, fs.rcvNxt, fs.srvSeq, fs.hasTS, fs.tsVal = true, true, clientNxt, serverISN, c.TS, 0x01020304
 	var out []Sched
 	opts := []byte{2, 4, 0xff, 0xd7}
 	if c.Permit {
@@ -552,13 +594,13 @@ func (s *SackServer) synAcks(n *NetWorld, remote netip.AddrPort) []Sched {
 			flags = TCPAck
 		}
 		// a near miss must not be taken for the handshake: it carries a poisoned ack value
-		data := tcpReply(src.Addr(), src.Port(), dst.Addr(), dst.Port(), c.ServerISN^0x55, c.ClientNxt+0x01000000, flags, opts)
+		data := tcpReply(src.Addr(), src.Port(), dst.Addr(), dst.Port(), serverISN^0x55, clientNxt+0x01000000, flags, opts)
 		out = append(out, Sched{Delay: us(c.SynAckUs) / 2, Data: data, Tag: Tag{Class: "perturbed", MustReject: true, Field: "synack-" + x.Kind, Flow: key, ID: i}})
 	}
 	if n.Flood != nil {
 		out = append(out, n.Flood.packets(nil, remote.Addr(), false)...)
 	}
-	genuineSynAck := tcpReply(s.Addr.Addr(), s.Addr.Port(), remote.Addr(), remote.Port(), c.ServerISN, c.ClientNxt, TCPSyn|TCPAck, opts)
+	genuineSynAck := tcpReply(s.Addr.Addr(), s.Addr.Port(), remote.Addr(), remote.Port(), serverISN, clientNxt, TCPSyn|TCPAck, opts)
 	for _, m := range n.Muts {
 		if m.Anchor == 0 {
 			out = append(out, Sched{Delay: us(m.DelayUs), Data: ApplyMut(genuineSynAck, m.Ops), Tag: Tag{Class: "raw", Flow: key}})
